@@ -4,6 +4,8 @@ package fakebinlog
 
 import (
 	"github.com/siddontang/go-mysql/replication"
+	"strconv"
+	"strings"
 
 	"verifharness/fakesql"
 	sw "verifharness/sqlworld"
@@ -15,7 +17,7 @@ type Queued struct {
 	Change  fakesql.Change
 	NCols   int    // database columns at commit time (struct columns + added columns)
 	TableID uint64 // table map id at commit time
-	Corrupt string // "" or "type": deliver a value of a type the scanner rejects
+	Corrupt string // "", "type" (a value of a type the scanner rejects) or "wide:<p>" (one value too many from position p on)
 }
 
 func rowImage(def *fakesql.TableDef, r fakesql.Row, ncols int, corrupt string) ([]interface{}, error) {
@@ -33,6 +35,15 @@ func rowImage(def *fakesql.TableDef, r fakesql.Row, ncols int, corrupt string) (
 	}
 	for len(out) < ncols {
 		out = append(out, nil)
+	}
+	if strings.HasPrefix(corrupt, "wide:") {
+		// an event logged before a column in the middle of the table was dropped: one value too
+		// many, everything behind position p shifted (the value at p appears twice)
+		p, _ := strconv.Atoi(corrupt[len("wide:"):])
+		if len(out) > 1 {
+			p = 1 + p%(len(out)-1)
+			out = append(out[:p+1], out[p:]...)
+		}
 	}
 	if corrupt == "type" {
 		// an int column arrives as an undecodable value
